@@ -737,10 +737,30 @@ def extra_C03(rng, tier, st, cov):
 def extra_C05(rng, tier, st, cov):
     return _engine_extra('C05')(rng, tier, st, cov) + _locale_extra('C05')(rng, tier, st, cov)
 extra_C20 = _locale_extra('C20')
+def _iteration_api(rng, tier, st, cov):
+    """C++ only: plain_iteration / vegas_iteration / multi_channel_iteration called directly with the caller's generator: while call k is
+    evaluated, and after an exception thrown in call k, the generator has advanced by exactly (k+1) x d (d+1) canonical numbers"""
+    out = []; n = 0
+    for t in ('d', 'f', 'l'):
+        for kind in ('plain', 'vegas', 'mc'):
+            for _ in range(2 if tier == 'quick' else 10):
+                dims = rng.choice([1, 2, 3]); calls = rng.choice([1, 6, 40, 2000]); throw_at = rng.choice([0, 0, 1, min(calls, 6), calls])
+                line = dump([1, t, 'iterdirect', [kind, dims, calls, throw_at], []])
+                rc, o = run_one(st['cxx_exe'], line)
+                n += 1
+                if rc != 0 or not o or not isinstance(o[1], list) or o[1][0] != 'ok':
+                    got = o[1] if o else None
+                    out.append(viol('%s_iteration called directly (%d dimensions, %d calls%s): the caller\'s generator %s' % (
+                        {'plain': 'plain', 'vegas': 'vegas', 'mc': 'multi_channel'}[kind], dims, calls, ', exception in call %d' % throw_at if throw_at else '',
+                        ('is at position %s after %s calls, expected %s; first calls that saw it elsewhere: %s' % (got[2], got[1], got[3], got[4:])) if isinstance(got, list) and len(got) >= 4 else 'could not be observed (%s)' % (dump(got)[:100] if got else rc)),
+                        [], {'spec': line}))
+    cov.setdefault('extra', {})['iteration_functions_called_directly'] = {'runs': n}
+    return out
+
 def extra_C10(rng, tier, st, cov):
     # the serial library with counting engines, and the MPI drivers under real MPI (stored generator = serial one) with engines that are
     # instantiations of the standard templates themselves
-    return _engine_extra('C10')(rng, tier, st, cov) + extra_C04(rng, tier, st, cov, pid='C10')
+    return _engine_extra('C10')(rng, tier, st, cov) + extra_C04(rng, tier, st, cov, pid='C10') + _iteration_api(rng, tier, st, cov)
 
 # ---- counters narrower than the model's (C02, C06): directed search ------------------------------------
 def _width_extra(pid):
